@@ -2,10 +2,11 @@
    kind = property*100 + sub-model.  [run] = what the model says the implementation must
    output on this input; [mon] = the property's monitor applied to the implementation's own
    observed output. *)
-From RainV Require Import Lib Tier Geometry SectionIO Meta Paths Wire Stree AddrList Cache Tracker Announcer Picker Ram InfoDl Magnet Admission.
+From RainV Require Import Lib Tier Geometry SectionIO Meta Paths Wire Stree AddrList Cache Tracker Announcer Picker Ram InfoDl Magnet Admission PieceDl.
 
 Definition run (kind : Z) (inp : list Z) : list Z :=
   match kind with
+  | 102 => run_piecedl inp
   | 201 => run_new_pieces inp
   | 202 => run_calc_blocks inp
   | 203 => run_section_io inp
@@ -41,6 +42,7 @@ Definition run (kind : Z) (inp : list Z) : list Z :=
 
 Definition mon (kind : Z) (inp obs : list Z) : bool :=
   match kind with
+  | 102 => list_eqb_Z (run_piecedl inp) obs
   | 201 => mon_new_pieces inp obs
   | 202 => mon_calc_blocks inp obs
   | 203 => mon_section_io inp obs
